@@ -344,9 +344,27 @@ def check_split(ctx, case):
     for od in orders:
         for nname, builder in nestings(nfiles):
             structure = builder(od)
-            with libfiles.TempTree() as tree:
+            with libfiles.TempTree(stat_stable=(n_loaded % 2 == 0)) as tree:
+                if expect_conflict and n_loaded % 5 == 1:
+                    # the files first hold the conflict-free data and load;
+                    # then the conflict is written into them in place (same
+                    # paths, same process): the second load sees the files
+                    # as they are NOW
+                    p0 = write_tree(tree, gp_clean, structure, tref, None)
+                    o0 = observe(libs.fresh, p0)
+                    if 'exc' in o0:
+                        ctx.violation('loading a conflict-free split raised '
+                                      '%s' % o0['exc'], dict(
+                                          case, order=list(od)),
+                                      {'msg': o0['msg'], 'pieces': gp_clean})
+                        return
+                    ctx.count('conflicts_written_into_files_loaded_before')
                 p = write_tree(tree, gp, structure, tref, top_piece)
                 o = observe(libs.fresh, p)
+                if tree.same_stat_rewrites:
+                    ctx.count('files_rewritten_with_size_and_mtime_unchanged',
+                              tree.same_stat_rewrites)
+                    tree.same_stat_rewrites = 0
                 if expect_conflict and 'exc' in o and n_loaded % 5 == 0:
                     # the same files once more, then the files REPAIRED in
                     # place (same paths, same process): a failed load must
@@ -361,6 +379,10 @@ def check_split(ctx, case):
                         return
                     write_tree(tree, gp_clean, structure, tref, None)
                     o3 = observe(libs.fresh, p)
+                    if tree.same_stat_rewrites:
+                        ctx.count(
+                            'files_rewritten_with_size_and_mtime_unchanged',
+                            tree.same_stat_rewrites)
                     bad = None
                     if 'exc' in o3:
                         bad = 'raises %s' % o3['exc']
